@@ -114,11 +114,15 @@ type Set struct {
 	byAddr   map[hash.Hash]int
 	by16     map[[16]byte]struct{}
 	contents map[string]struct{} // contents are pairwise distinct too (see Grow)
+	// 12-byte suffixes are pairwise distinct as well: a table file is *named* by the hash of its
+	// chunks' suffixes, so two files holding chunks that differ only in the prefix would get the
+	// same file name and overwrite each other — impossible with real hashes, an artefact of forging.
+	bySuffix map[[12]byte]struct{}
 	nextOrd  uint32
 }
 
 func NewSet() *Set {
-	return &Set{byAddr: map[hash.Hash]int{}, by16: map[[16]byte]struct{}{}, contents: map[string]struct{}{}}
+	return &Set{byAddr: map[hash.Hash]int{}, by16: map[[16]byte]struct{}{}, contents: map[string]struct{}{}, bySuffix: map[[12]byte]struct{}{}}
 }
 
 func key16(h hash.Hash) (k [16]byte) { copy(k[:], h[:16]); return }
@@ -149,6 +153,12 @@ func (s *Set) Add(c Chunk) bool {
 	if _, ok := s.by16[key16(c.Addr)]; ok {
 		return false
 	}
+	var sfx [12]byte
+	copy(sfx[:], c.Addr[8:])
+	if _, ok := s.bySuffix[sfx]; ok {
+		return false
+	}
+	s.bySuffix[sfx] = struct{}{}
 	s.byAddr[c.Addr] = len(s.Chunks)
 	s.by16[key16(c.Addr)] = struct{}{}
 	s.Chunks = append(s.Chunks, c)
@@ -178,7 +188,7 @@ func GenPrefixPool(t *rapid.T, label string) []uint64 {
 	return pool
 }
 
-var midUniverse = []uint64{0, 1, 2, 3, 4, 5, 0x7fffffffffffffff, 0x8000000000000000, 0xfffffffffffffffe, 0xffffffffffffffff,
+var midUniverse = []uint64{0, 1, 2, 3, 4, 5, 6, 7, 8, 9, 10, 11, 12, 13, 14, 15, 16, 17, 18, 19, 20, 21, 22, 23, 24, 25, 26, 27, 28, 29, 30, 31, 0x7fffffffffffffff, 0x8000000000000000, 0xfffffffffffffffe, 0xffffffffffffffff,
 	0x0100000000000000, 0x00000000000000ff, 0xff00000000000000}
 var tailUniverse = []uint32{0, 1, 2, 0x7fffffff, 0x80000000, 0xfffffffe, 0xffffffff}
 
@@ -194,7 +204,7 @@ func ForgeAddr(prefix, mid uint64, tail uint32) (h hash.Hash) {
 func GenForgedAddr(t *rapid.T, label string, pool []uint64) hash.Hash {
 	p := pool[rapid.IntRange(0, len(pool)-1).Draw(t, label+".p")]
 	var mid uint64
-	if rapid.IntRange(0, 4).Draw(t, label+".midkind") == 0 {
+	if rapid.IntRange(0, 4).Draw(t, label+".midkind") <= 1 {
 		mid = rapid.Uint64().Draw(t, label+".mid")
 	} else {
 		mid = midUniverse[rapid.IntRange(0, len(midUniverse)-1).Draw(t, label+".midi")]
@@ -295,7 +305,7 @@ func (s *Set) Grow(t *rapid.T, label string, n int, o Opts) []Chunk {
 		s.contents[string(c.Data)] = struct{}{}
 		forged := !o.GenuineOnly && (o.ForgedOnly || rapid.IntRange(0, 9).Draw(t, l+".forged") < 7)
 		if forged {
-			for try := 0; try < 4; try++ {
+			for try := 0; try < 6; try++ {
 				c.Addr = GenForgedAddr(t, fmt.Sprintf("%s.a%d", l, try), s.Prefixes)
 				if s.Add(c) {
 					break
